@@ -8,8 +8,11 @@ State that is modelled
   * per sqlframe engine package: the attributes added after the package was imported (activate's
     `setattr`s, the `functions` submodule once imported, duplicate loads), whether
     `sqlframe.<e>.functions` itself is in sys.modules, and attributes set on the engine's file modules,
-  * ACTIVATE_CONFIG, the open `activate_context` generators, the session singleton and the per-engine
-    builder objects (`Builder` instances are class attributes, so they outlive a deactivate).
+  * ACTIVATE_CONFIG, the open `activate_context` generators, the session singleton (`_BaseSession._instance`:
+    absent / allocated by `__new__` but not initialised / initialised) and the per-engine builder objects
+    (`Builder` instances are class attributes, so they outlive a deactivate),
+  * the CALLER's config dicts: the harness hands one and the same dict object to every activation that is given the
+    same settings (an application's shared settings dict); `activate` must only read it.
 Python's import rules used: `import a.b.c` loads each dotted prefix (sys.modules first, else the parent's
 `__path__` — a sqlframe engine package's directory —, binding the child on the parent), `from a.b import c`
 = attribute, else (packages only) import of `<a.b.__name__>.c`, `import a.b.c as x` = attribute chain from
@@ -19,8 +22,9 @@ Everything here is structurally recursive and uses only kernel-reducible string 
 instances can be proved by `decide`.
 -/
 import SqlframeModel.Gen.Activate
+import SqlframeModel.Gen.ActSession
 namespace Sqlframe.C20
-open Sqlframe.Gen.Act
+open Sqlframe.Gen.Act Sqlframe.Gen.ActS
 
 /-! ### kernel-reducible string helpers -/
 
@@ -119,9 +123,11 @@ structure RealMod where
 structure Env where
   real : List RealMod        -- modules not listed raise ModuleNotFoundError
   brokenPkgs : List String   -- engines whose `import sqlframe.<e>` raises (driver not installed)
+  badConns : List Nat := []  -- connections on which every use raises (closed, a clashing user function, …): the
+                             -- fault "exception raised by session creation" of the property's quantifier
   deriving Repr, Inhabited
 
-def Env.absent : Env := { real := [], brokenPkgs := [] }
+def Env.absent : Env := { real := [], brokenPkgs := [], badConns := [] }
 
 def Env.find (env : Env) (name : String) : Option RealMod := env.real.find? (·.name == name)
 
@@ -153,6 +159,17 @@ structure Inst where
   dialect : String
   deriving DecidableEq, Repr, Inhabited
 
+/-- `_BaseSession._instance` -/
+inductive Single
+  | absent                   -- None
+  | allocated (e : String)   -- stored by `__new__` for engine e's class; no `_connection` attribute (yet)
+  | ready (i : Inst)         -- has a `_connection` attribute: `DuckDBSession.__init__`'s guard skips it
+  deriving DecidableEq, Repr, Inhabited
+
+def Single.unready : Single → Bool
+  | .ready _ => false
+  | _ => true
+
 structure State where
   mods : List (String × Obj)
   mockSql : Option Obj
@@ -161,13 +178,14 @@ structure State where
   config : List (String × Cfg)
   ctx : Nat
   cur : Option String          -- ghost: engine that last bound pyspark.sql and has not been removed since
-  inst : Option Inst
+  inst : Single
   builders : List Builder
+  caller : List (String × List (String × Cfg))   -- the caller's config dict per settings value (dialect), by first use
   deriving DecidableEq, Repr, Inhabited
 
 def State.fresh : State :=
   { mods := [], mockSql := none, mockTesting := false, pkgs := [], config := [], ctx := 0, cur := none,
-    inst := none, builders := [] }
+    inst := .absent, builders := [], caller := [] }
 
 /-! ### the engine tables -/
 
@@ -345,8 +363,6 @@ def userImport (env : Env) (st : State) : ImportForm → State × Res
 
 /-! ### activate -/
 
-def setCfg (st : State) (k : String) (v : Cfg) : State := { st with config := aset st.config k v }
-
 def ensurePkg (st : State) (e : String) : State :=
   if (aget st.pkgs e).isSome then st else { st with pkgs := aset st.pkgs e Pkg.empty }
 
@@ -383,16 +399,61 @@ def loopRun (e pre : String) : State × List String → List (String × Obj) →
     | none => ((setPkgAttr acc.1 e (unprefixed pre kv.1) kv.2), some .moduleNotFound)
     | some acc' => loopRun e pre acc' rest
 
+/-! #### conn / config: the generated statements over the caller's dict, a local variable and ACTIVATE_CONFIG -/
+
+def dialectKey : String := "sqlframe.input.dialect"
+
+/-- the dict the harness passes as `config={'sqlframe.input.dialect': d}` when it was created -/
+def callerInit (d : String) : List (String × Cfg) := [(dialectKey, .str d)]
+
+def callerGet (st : State) (d : String) : List (String × Cfg) := (aget st.caller d).getD (callerInit d)
+
+def ensureCaller (st : State) (d : String) : State :=
+  if (aget st.caller d).isSome then st else { st with caller := aset st.caller d (callerInit d) }
+
+/-- what activate's local `config` is bound to -/
+inductive Loc
+  | none                                   -- None
+  | alias (d : String)                     -- the caller's dict for settings d
+  | fresh (c : List (String × Cfg))        -- a dict created inside activate
+  deriving DecidableEq, Repr, Inhabited
+
+def locContent (st : State) : Loc → List (String × Cfg)
+  | .none => []
+  | .alias d => callerGet st d
+  | .fresh c => c
+
+def storeItems (cfg : List (String × Cfg)) : List (String × Cfg) → List (String × Cfg)
+  | [] => cfg
+  | (k, v) :: rest => storeItems (aset cfg k v) rest
+
+def cfgStep (conn : Option Nat) (acc : State × Loc) : CfgStmt → State × Loc
+  | .rebind copy =>
+    let c := locContent acc.1 acc.2
+    if c.isEmpty then (acc.1, .fresh [])            -- `config or {}` on None / an empty dict: a new dict
+    else if copy then (acc.1, .fresh c) else acc
+  | .connToGlobal k =>
+    (match conn with
+     | some n => ({ acc.1 with config := aset acc.1.config k (.conn n) }, acc.2)
+     | none => acc)
+  | .connToLocal k =>
+    (match conn, acc.2 with
+     | some n, .alias d => ({ acc.1 with caller := aset acc.1.caller d (aset (callerGet acc.1 d) k (.conn n)) }, acc.2)
+     | some n, .fresh c => (acc.1, .fresh (aset c k (.conn n)))
+     | _, _ => acc)                                 -- (the translator refuses a store into a config that may be None)
+  | .itemsToGlobal => ({ acc.1 with config := storeItems acc.1.config (locContent acc.1 acc.2) }, acc.2)
+
+def storeCfg (conn : Option Nat) : List CfgStmt → State × Loc → State × Loc
+  | [], acc => acc
+  | s :: rest, acc => storeCfg conn rest (cfgStep conn acc s)
+
 /-- the part of `activate` that runs for every call: install the mock package, store conn / config -/
 def activatePre (conn : Option Nat) (dialect : Option String) (st : State) : State :=
   let st := if setsTop then { st with mods := aset st.mods "pyspark" .mock, mockSql := none, mockTesting := mockTesting } else st
   let st := if setsTesting then { st with mods := aset st.mods "pyspark.testing" .testing } else st
-  let st := match conn, connKey with
-    | some n, some k => setCfg st k (.conn n)
-    | _, _ => st
   match dialect with
-  | some d => if storesConfig then setCfg st "sqlframe.input.dialect" (.str d) else st
-  | none => st
+  | some d => (storeCfg conn cfgStmts (ensureCaller st d, .alias d)).1
+  | none => (storeCfg conn cfgStmts (st, .none)).1
 
 /-- the part of `activate` after the engine name has been validated and its package imported -/
 def activateEngine (e pre : String) (st : State) : State × Option Exc :=
@@ -510,7 +571,7 @@ def ctxExit (env : Env) (k : ExitKind) (st : State) : State × Option Exc :=
 def validDialects : List String := ["spark", "duckdb", "bigquery", "postgres", "snowflake", "redshift", "databricks", "mysql", "tsql"]
 
 def getBuilder (st : State) (e : String) : Builder :=
-  (st.builders.find? (·.engine == e)).getD { engine := e, dialect := "spark", conn := none }
+  (st.builders.find? (·.engine == e)).getD { engine := e, dialect := defaultInputDialect, conn := none }
 
 def putBuilder (bs : List Builder) (b : Builder) : List Builder :=
   match bs with
@@ -519,8 +580,8 @@ def putBuilder (bs : List Builder) (b : Builder) : List Builder :=
 
 def applyCfg (b : Builder) : List (String × Cfg) → Builder
   | [] => b
-  | (k, .conn n) :: rest => applyCfg (if some k = connKey then { b with conn := some n } else b) rest
-  | (k, .str s) :: rest => applyCfg (if k = "sqlframe.input.dialect" then { b with dialect := s } else b) rest
+  | (k, .conn n) :: rest => applyCfg (if k = builderConnKey then { b with conn := some n } else b) rest
+  | (k, .str s) :: rest => applyCfg (if k = builderDialectKey then { b with dialect := s } else b) rest
 
 inductive Outcome
   | ok
@@ -530,6 +591,77 @@ inductive Outcome
   | unmodelled
   deriving DecidableEq, Repr, Inhabited
 
+def connIsBad (env : Env) : ConnV → Bool
+  | .given n => env.badConns.contains n
+  | _ => false
+
+/-- the guarded body of `DuckDBSession.__init__` (generated step list) on an instance without `_connection`:
+    `loc` is the parameter `conn`, `attr` the instance's `_connection` once the base initialiser has run.
+    Result: the attribute afterwards and the exception that ended the body, if any.  A use of a bad connection
+    raises an engine error (class `Exception`), a use of `None` / of the unset property an AttributeError/ValueError. -/
+def runInit (env : Env) : List InitStep → ConnV → Option ConnV → Option ConnV × Option Exc
+  | [], _, a => (a, none)
+  | .defaultConn :: r, loc, a => runInit env r (if loc = .none then .default else loc) a
+  | .useConn viaSelf caught :: r, loc, a =>
+    let c := if viaSelf then a.getD .none else loc
+    if c = .none then
+      (if caught.any (catches · .attributeError) then runInit env r loc a else (a, some .attributeError))
+    else if connIsBad env c && !(caught.any (catches · .exception)) then (a, some .exception)
+    else runInit env r loc a
+  | .superInit dflt :: r, loc, a =>
+    let c := if dflt && loc = .none then .default else loc
+    runInit env r loc (if c = .none then (match a with | some x => some x | none => some .none) else some c)
+  | .setAttr _ :: r, loc, a => runInit env r loc a
+
+/-- the keyword argument `conn` the builder passes to the session class -/
+def builderConn (b : Builder) : ConnV :=
+  match b.conn with
+  | some n => .given n
+  | none => .none
+
+/-- `_BaseSession.__new__(cls_e)`: the stored object, created (and stored at once) if there is none -/
+def newObject (e : String) : Single → Single
+  | .absent => if singletonInNew then .allocated e else .absent
+  | s => s
+
+/-- `cls(**kwargs)` once `__new__` has returned the singleton: `__init__` runs only if the object is an instance of
+    the requested engine's class; an initialised object is left alone (DuckDB: the guard; base: an existing
+    connection is kept when none is passed — the standalone builder passes none) -/
+def initInstance (env : Env) (e : String) (b : Builder) : Single → Single × Option Exc
+  | .ready i => (.ready i, none)
+  | .absent => (.absent, none)
+  | .allocated e' =>
+    if e' ≠ e then (.allocated e', none)
+    else if e = "duckdb" then
+      match runInit env duckInit (builderConn b) none with
+      | (some c, x) => ((if c = .none then .allocated e else .ready { engine := e, conn := c, dialect := defaultInputDialect }), x)
+      | (none, x) => (.allocated e, x)
+    else (.ready { engine := e, conn := .none, dialect := defaultInputDialect }, none)
+
+/-- no session object exists that a `getOrCreate()` of the duckdb engine would hand out as it is: none at all, or one
+    that a failed `DuckDBSession.__init__` left without a connection -/
+def Single.pristine : Single → Bool
+  | .absent => true
+  | .allocated e => e == "duckdb"
+  | .ready _ => false
+
+/-- `<engine e's session class>.builder.getOrCreate()`: every ACTIVATE_CONFIG item into the (class-level) builder, then
+    the dialect is validated, then `self.session` is evaluated (`__new__`, then `__init__`) -/
+def createVia (env : Env) (e : String) (st : State) : State × Outcome :=
+  let b := applyCfg (getBuilder st e) st.config
+  let st := { st with builders := putBuilder st.builders b }
+  if !(validDialects.contains b.dialect) then (st, .raised .valueError)
+  else
+    match initInstance env e b (newObject e st.inst) with
+    | (s2, some x) => ({ st with inst := s2 }, .raised x)
+    | (.ready i, none) =>
+      let i := { i with dialect := b.dialect }
+      ({ st with inst := .ready i }, .session i.engine i.conn i.dialect)
+    | (.allocated e', none) =>
+      -- an attribute-less object of another engine's class comes back (no `_connection`)
+      ({ st with inst := .allocated e' }, .session e' .none b.dialect)
+    | (.absent, none) => (st, .unmodelled)
+
 /-- `from pyspark.sql import SparkSession; SparkSession.builder.getOrCreate()`; only the duckdb and
     standalone sessions are modelled -/
 def sessionCreate (env : Env) (st : State) : State × Outcome :=
@@ -538,17 +670,7 @@ def sessionCreate (env : Env) (st : State) : State × Outcome :=
   | (st, .ok (.cls e n)) =>
     if !(some n == (prefixOf e).map (· ++ "Session")) then (st, .unmodelled)
     else if !(e = "duckdb" || e = "standalone") then (st, .unmodelled)
-    else
-      let b := applyCfg (getBuilder st e) st.config
-      let st := { st with builders := putBuilder st.builders b }
-      if !(validDialects.contains b.dialect) then (st, .raised .valueError)
-      else
-        let i : Inst := match st.inst with
-          | some i => i
-          | none => { engine := e, dialect := "spark",
-                      conn := if e = "duckdb" then (match b.conn with | some n => .given n | none => .default) else .none }
-        let i := { i with dialect := b.dialect }
-        ({ st with inst := some i }, .session i.engine i.conn i.dialect)
+    else createVia env e st
   | (st, .ok o) => (st, .obj o)
 
 /-! ### events -/
